@@ -6,4 +6,4 @@ From Coq Require Import ExtrOcamlBasic.
 From CacheV Require Import Base SpecMap Client CacheModel CacheOfModel Ops Exec.
 Extraction Language OCaml.
 Extraction "model.ml"
-  x_new x_newdefault x_step fn_of vis_of z_push_digit z_digits z_is_neg z_small.
+  x_new x_newdefault x_step x_spec_next x_spec_okb fn_of vis_of z_push_digit z_digits z_is_neg z_small.
